@@ -542,7 +542,7 @@ void Explore(const std::string & partName, const std::string & configArgs, const
                if (base + (int)o.cost[j][(size_t)alt] <= opt.bound) { std::vector<unsigned char> np(o.taken.begin(), o.taken.begin() + (long)j); np.push_back((unsigned char)alt); work.push_back(np); }
       }
    }
-   verif::Part p; p.name = partName; p.states = observations.size(); p.transitions = executions; p.evaluations = executions; p.distinct_outcomes = observations.size();
+   verif::Part p; p.name = partName; p.states = executions;   /* stateless exploration: every execution is a DISTINCT schedule (choice list) by construction */ p.transitions = executions; p.evaluations = executions; p.distinct_outcomes = observations.size();
    p.bound_completed = capped ? -1 : opt.bound; p.exhaustive = !capped; p.cap = cap; p.wall_s = verif::NowS() - t0; p.samples = samples;
    p.extra["executions"] = verif::Fmt("%lu", executions);
    p.extra["executions_by_cost"] = verif::Fmt("[%lu,%lu,%lu,%lu,%lu]", perBound[0], perBound[1], perBound[2], perBound[3], perBound[4]);
